@@ -1,8 +1,22 @@
 #!/bin/sh
-# private copy of the framework for a package-building sub-agent: tools/mk_ws.sh <name>  -> /tmp/w/<name>/verif
+# private copy of the framework for a package-building sub-agent:
+#   tools/mk_ws.sh <name> [patch.diff]  ->  /tmp/w/<name>/verif   (records the base commit in /tmp/w/<name>/BASE)
+# With a patch: also a scratch worktree /tmp/w/<name>/repo of /repo's HEAD with the patch applied; the copy's harness and
+# runner are pointed at it (for work on a model that has to follow a repair which is not committed to /repo yet).
 set -e
 W=/tmp/w/$1/verif
 mkdir -p "$W"
 rsync -a --delete --exclude .git --exclude .work --exclude replays --exclude evidence /verif/ "$W"/
 mkdir -p "$W/replays" "$W/evidence"
+git -C /verif rev-parse HEAD > /tmp/w/$1/BASE
+if [ -n "$2" ]; then
+  R=/tmp/w/$1/repo
+  git -C /repo worktree remove --force $R 2>/dev/null || true
+  git -C /repo worktree add -q --detach $R HEAD
+  git -C $R apply "$2"
+  cp /repo/Cargo.lock $R/Cargo.lock
+  sed -i "s|path = \"/repo\"|path = \"$R\"|" $W/harness/Cargo.toml
+  sed -i "s|^import runner$|os.environ.setdefault(\"VERIF_REPO\", \"$R\")\nimport runner|" $W/check
+  echo "$R" > /tmp/w/$1/REPO
+fi
 echo "$W"
